@@ -27,7 +27,7 @@ def lastCs : List Msg → Option Commit
     | none => match m with | .cs c => some c | _ => none
 
 def msgKind : Msg → String
-  | .add _ _ => "add" | .fulfill _ => "fulfill" | .fail _ => "fail" | .cs _ => "cs" | .raa => "raa"
+  | .add _ _ => "add" | .fulfill _ => "fulfill" | .fail _ => "fail" | .cs _ => "cs" | .raa => "raa" | .fee _ => "fee"
 
 structure ChanParams where
   feerate : Nat
@@ -43,7 +43,7 @@ def insPair (x : Bool × Nat) : List (Bool × Nat) → List (Bool × Nat)
 /-- the transaction the signer `x` built for its peer, through the commitment-builder model of C01 -/
 def showBuilt (p : ChanParams) (total : Nat) (xIsA : Bool) (c : Commit) : String :=
   let htlcs : List TxB.HtlcIn := c.htlcs.map (fun h => { offered := h.1, amount_msat := h.2.2 })
-  match TxB.buildCommitment false (xIsA == p.funderIsA) (total / 1000) c.builderBalance htlcs p.feerate p.dust p.ty with
+  match TxB.buildCommitment false (xIsA == p.funderIsA) (total / 1000) c.builderBalance htlcs c.feerate p.dust p.ty with
   | none => "panic"
   | some b =>
     let nd := (b.nondust.map (fun h => (h.offered, h.amount_msat))).foldr insPair []
@@ -63,7 +63,9 @@ def chan : Drv where
       let t : TxB.ChanType := if ty == "a" then { anchors := true, zeroFee := false }
         else if ty == "z" then { anchors := false, zeroFee := true } else { anchors := false, zeroFee := false }
       let prm : ChanParams := { feerate := nat! feerate, dust := nat! dust, funderIsA := funder == "a", ty := t }
-      (some (Sys.init (nat! va) (nat! vb), prm), "ok")
+      let s0 := Sys.init (nat! va) (nat! vb) (nat! feerate)
+      let s0 : Sys := if funder == "a" then s0 else { s0 with a := { s0.a with isFunder := false }, b := { s0.b with isFunder := true } }
+      (some (s0, prm), "ok")
     | ["commit", x, adds, fu, fa], some s => ret
       (match stepG s (.commit (x == "a") (natsOf adds) (natsOf fu) (natsOf fa)) with
        | none => (some s, "disabled")
@@ -76,7 +78,9 @@ def chan : Drv where
       let q := if y == "a" then s.qba else s.qab
       (match stepG s (.recv (y == "a")) with
        | none => (some s, "disabled")
-       | some s' => (some s', s!"ok {(q.head?.map msgKind).getD "?"} {if s'.agreed then "agree" else "DISAGREE"}"))
+       | some s' => (some s', s!"ok {(q.head?.map msgKind).getD "?"} {if s'.agreed && s'.feeAgreed then "agree" else "DISAGREE"}"))
+    | ["fee", x, f], some s => ret
+      (match stepG s (.fee (x == "a") (nat! f)) with | none => (some s, "disabled") | some s' => (some s', "ok"))
     | ["disconnect"], some s => ret
       (match stepG s .disconnect with | none => (some s, "disabled") | some s' => (some s', "ok"))
     | ["reest", y], some s => ret
